@@ -30,17 +30,22 @@ def run(tier, seed, work):
     verif.log("C18: model checked MC_Locking_base.cfg (ReimportFixpoint): %d distinct states" % r.distinct)
     per, depth, nj = (3, 30, 8) if quick else (20, 40, 12)
     outs = []
+    crashed = []
 
     def one(j):
         d = os.path.join(work, "job%d" % j)
         os.makedirs(d, exist_ok=True)
         rc_, so, se = verif.driver(binary, ["reimport", "-n", per, "-depth", depth, "-seed", seed * 1000 + j, "-out", d], work)
         if rc_ != 0:
+            if verif.app_crashed(se):      # export / import took the process down (a panic in repository code): the state cannot be exported
+                crashed.append((j, d, se))
+                return d
             raise verif.Infra("reimport driver failed rc=%d\n%s\n%s" % (rc_, so[-2000:], se[-3000:]))
         return d
 
     with ThreadPoolExecutor(max_workers=verif.NCPU) as ex:
         outs = list(ex.map(one, range(nj)))
+    outs = [d for d in outs if d not in [c[1] for c in crashed]]      # a crashed driver's traces may end in the middle of a line
     groups = [("locking", "Trace_Locking.tla", "Trace_Locking_C18.cfg", lambda l: '"ev":"init"' in l),
               ("bridge", "Trace_Bridge.tla", "Trace_Bridge_C18.cfg", lambda l: '"ev":"init"' in l),
               ("relayer", "Trace_Relayer.tla", "Trace_Relayer_C18.cfg", lambda l: '"ev":"init"' in l),
@@ -61,6 +66,14 @@ def run(tier, seed, work):
         evs.append((name, ev["coverage"]["events_validated"], ev.get("violations", 0)))
         if name == "export":
             cycles = sum(1 for l in open(path) if '"phase":"import"' in l)
+    for j, d, se in crashed:
+        rd = verif.save_replay("C18", seed, None, extra_files=[os.path.join(d, n + ".ndjson") for n in ("export", "locking", "bridge", "relayer")])
+        with open(os.path.join(rd, "crash.txt"), "w") as f:
+            f.write(se[-20000:])
+        print("VIOLATION property=C18 replay=%s" % rd)
+        print("  exporting / importing a reachable state took the process down (unrecovered panic in repository code); last lines:\n" + se[-1200:])
+        rc_all = verif.EXIT_VIOLATION
+        evs.append(("crash", 0, 1))
     cov = dict(states=r.distinct, transitions=r.generated, traces_validated_against_impl=cycles, events_validated=total_events,
                evaluations=total_events, distinct_nontrivial=cycles, samples=samples, rule=RULE + "; distinct_nontrivial = export/import cycles performed",
                per_module=[dict(module=n, events=e, violations=v) for n, e, v in evs], exhaustive=False)
